@@ -811,7 +811,7 @@ def preaggregate_time(array, times, aggregator, length):
         length (float): Aggregate across this many hours in time
     """
     assert len(times) == array.shape[0]
-    new_array = np.nan * np.zeros(array.shape, np.float32)
+    new_array = np.nan * np.zeros(array.shape, float)
     for t in range(array.shape[0]):
         start = times[t] - length * 3600
         I = range(np.where(times > start)[0][0], t+1)
@@ -829,7 +829,7 @@ def preaggregate_leadtime(array, leadtimes, aggregator, length):
         length (float): Aggregate across this many hours in leadtime
     """
     assert len(leadtimes) == array.shape[1]
-    new_array = np.nan * np.zeros(array.shape, np.float32)
+    new_array = np.nan * np.zeros(array.shape, float)
     for t in range(array.shape[1]):
         start = leadtimes[t] - length
         I = range(np.where(leadtimes > start)[0][0], t+1)
